@@ -188,6 +188,7 @@ func cmdCheck(args []string) int {
 	if *tier == "thorough" {
 		timeoutS = 60
 		crossCheck = true
+		callCovers = true
 	}
 	fail := func(msg string) int {
 		fmt.Println("ERROR:", msg)
